@@ -149,12 +149,14 @@ def plan(tier, seed):
         i = 0
         shards.append({"shard": 100, "config": "set:similar_names", "group": 0, "schedules": 1, "hashseed_runs": 0})
         shards.append({"shard": 101, "config": "set:ho_pair", "group": 0, "schedules": 1, "hashseed_runs": 0})
+        shards.append({"shard": 102, "config": "probe:make_sequence", "group": 0, "schedules": 7, "hashseed_runs": 0})
         for cfg in QUICK_CONFIGS:
             for g in range(3 if cfg == "custom_matrix_with_default" else 4):
                 shards.append({"shard": i, "config": cfg, "group": g, "schedules": 2, "hashseed_runs": 1 if g == 0 else 0})
                 i += 1
     else:
         i = 0
+        shards.append({"shard": 1200, "config": "probe:make_sequence", "group": 0, "schedules": 40, "hashseed_runs": 0})
         for g in range(3):
             shards.append({"shard": 1000 + g, "config": "set:similar_names", "group": g, "schedules": 5, "hashseed_runs": 1 if g == 0 else 0})
             shards.append({"shard": 1100 + g, "config": "set:ho_pair", "group": g, "schedules": 5, "hashseed_runs": 1 if g == 0 else 0})
@@ -167,6 +169,9 @@ def plan(tier, seed):
 
 def cases(spec, ctx):
     rng = ctx.rng
+    if spec["config"] == "probe:make_sequence":
+        yield {"config": spec["config"], "hashseeds": [0] + [rng.randrange(1, 1 << 31) for _ in range(spec["schedules"])]}
+        return
     scheds = []
     for s in range(spec["schedules"]):
         scheds.append({"order_seed": rng.randrange(1 << 30), "k": rng.choice([1, 4, 16, 16]),
@@ -204,8 +209,64 @@ def diff_trees(a, b):
     return [k for k in keys if a.get(k) != b.get(k)]
 
 
+PROBE = r'''
+import sys, json
+from io import StringIO
+from vc2_conformance.codec_features import read_codec_features_csv
+from vc2_conformance.encoder import make_sequence
+from vc2_conformance.picture_generators import mid_gray
+cf = read_codec_features_csv(StringIO(sys.argv[1]))["probe"]
+pics = list(mid_gray(cf["video_parameters"], cf["picture_coding_mode"]))
+out = []
+for npics, patterns in json.loads(sys.argv[2]):
+    try:
+        seq = make_sequence(cf, pics[:1] * npics, *patterns)
+        out.append([du["parse_info"]["parse_code"].name for du in seq["data_units"]])
+    except Exception as e:
+        out.append(type(e).__name__)
+print(json.dumps(out))
+'''
+# data-unit patterns (as the padding_data / repeated header generators pass them) that leave the search free choices
+# between equally short completions: which one is taken must not depend on the process
+PROBE_PATTERNS = [
+    [1, ["sequence_header high_quality_picture (auxiliary_data padding_data | end_of_sequence sequence_header | . padding_data padding_data padding_data) end_of_sequence $"]],
+    [2, ["sequence_header (high_quality_picture (auxiliary_data | padding_data | sequence_header))* end_of_sequence"]],
+    [1, ["sequence_header . high_quality_picture . end_of_sequence"]],
+    [1, ["sequence_header (auxiliary_data | padding_data | .) (padding_data | auxiliary_data) high_quality_picture end_of_sequence"]],
+    [0, ["sequence_header (auxiliary_data | padding_data) .* end_of_sequence"]],
+    [2, ["(sequence_header | auxiliary_data | padding_data)* high_quality_picture . high_quality_picture (auxiliary_data | .) end_of_sequence"]],
+]
+
+
+def _run_probe(case, ctx):
+    """the same make_sequence() calls in fresh processes under several hash seeds: one answer"""
+    import json as _json
+
+    repo = os.environ.get("VERIF_REPO", "/repo")
+    results = {}
+    for hs in case["hashseeds"]:
+        p = subprocess.run([PY, "-c", PROBE, csv_text(["minimal_hq"]).replace("minimal_hq", "probe"), _json.dumps(PROBE_PATTERNS)],
+                           env=_env({"VERIF_REPO": repo, "PYTHONHASHSEED": str(hs), "PYTHONPATH": repo}), capture_output=True, text=True, timeout=900)
+        ctx.count("probe_processes")
+        if p.returncode != 0:
+            ctx.violation("process-failed:probe", "make_sequence probe failed under PYTHONHASHSEED=%s: %s" % (hs, p.stderr[-600:]))
+            return
+        results[hs] = p.stdout.strip()
+    ctx.count("probe_sequences_compared", len(PROBE_PATTERNS) * len(results))
+    ctx.seen(jsonx.key_hash(["probe", case["hashseeds"]]))
+    distinct = sorted(set(results.values()))
+    if len(distinct) > 1:
+        a, b = [k for k, v in results.items() if v == distinct[0]][0], [k for k, v in results.items() if v == distinct[1]][0]
+        ra, rb = _json.loads(results[a]), _json.loads(results[b])
+        i = [x != y for x, y in zip(ra, rb)].index(True)
+        ctx.violation("hashseed-differs:make_sequence",
+                      "make_sequence with data-unit pattern %r gives %r under PYTHONHASHSEED=%s and %r under %s" % (PROBE_PATTERNS[i][1], ra[i], a, rb[i], b))
+
+
 def run_case(case, ctx):
     cfg = case["config"]
+    if cfg == "probe:make_sequence":
+        return _run_probe(case, ctx)
     work = tempfile.mkdtemp(prefix="c24-", dir=os.path.join(os.environ.get("VERIF_HOME", "/verif"), ".work"))
     try:
         _run(case, cfg, work, ctx)
